@@ -92,6 +92,7 @@ func (socket *ftpActiveSocket) Close() error {
 }
 
 type ftpPassiveSocket struct {
+	listener  net.Listener
 	conn      net.Conn
 	port      int
 	host      string
@@ -140,6 +141,11 @@ func (socket *ftpPassiveSocket) Write(p []byte) (n int, err error) {
 }
 
 func (socket *ftpPassiveSocket) Close() error {
+	if socket.listener != nil {
+		// stops the accept when nobody connected
+		socket.listener.Close()
+	}
+
 	if socket.conn != nil {
 		return socket.conn.Close()
 	}
@@ -175,8 +181,14 @@ func (socket *ftpPassiveSocket) GoListenAndServe(sessionid string) (err error) {
 		listener = tls.NewListener(listener, socket.tlsConfig)
 	}
 
+	socket.listener = listener
+
 	go func() {
 		conn, err := listener.Accept()
+
+		// one data connection per passive socket
+		listener.Close()
+
 		socket.wg.Done()
 		if err != nil {
 			socket.err = err
